@@ -139,6 +139,9 @@ func (h *history) command(inSession bool, cmd ipmi.Command, script []hx.Outcome)
 
 var alphabet = []hx.Outcome{hx.Final, hx.Busy, hx.TimeoutCC, hx.Garbage, hx.BadSig, hx.Lost}
 
+// randAlphabet adds well-formed replies to other commands (retried past).
+var randAlphabet = append(append([]hx.Outcome(nil), alphabet...), hx.StrayOK, hx.StrayBusy)
+
 func pickCmd(i int) ipmi.Command {
 	switch i % 4 {
 	case 0:
@@ -207,11 +210,11 @@ func TestStateMachine(t *testing.T) {
 			n := rapid.IntRange(1, 6).Draw(t, "attempts")
 			sc := make([]hx.Outcome, n)
 			for i := range sc {
-				sc[i] = rapid.SampledFrom(alphabet).Draw(t, "outcome")
+				sc[i] = rapid.SampledFrom(randAlphabet).Draw(t, "outcome")
 			}
 			return sc
 		}
-		steps := 0
+		steps, strays, numbered := 0, 0, false
 		t.Repeat(map[string]func(*rapid.T){
 			"sessionCommand": func(t *rapid.T) {
 				if steps >= 60 {
@@ -243,6 +246,29 @@ func TestStateMachine(t *testing.T) {
 				cmd := pickCmd(rapid.IntRange(0, 3).Draw(t, "cmd"))
 				h.command(false, cmd, genScript())
 			},
+			"bmcNumbersSessionlessPackets": func(t *rapid.T) {
+				h.w.BMC.NumberPlain = rapid.Bool().Draw(t, "on")
+				if h.w.BMC.NumberPlain {
+					numbered = true
+				}
+			},
+			"strayInSessionReplyThenSessionless": func(t *rapid.T) {
+				// a delayed duplicate of an in-session reply is waiting in the socket
+				// when a session-less command is made
+				s := h.bs
+				if h.bs2 != nil && rapid.Bool().Draw(t, "second") {
+					s = h.bs2
+				}
+				msg := &ref.Msg{RsAddr: ref.ConsoleSWID, NetFn: ref.NetFnApp | 1, RqAddr: ref.BMCAddr, RqSeq: byte(rapid.IntRange(0, 63).Draw(t, "rqseq")), Cmd: ref.CmdGetDeviceID, CC: 0}
+				h.w.Net.Inject(h.w.BMC.SessionPacket(s, msg.Bytes()))
+				h.desc = append(h.desc, "stray in-session reply queued")
+				h.command(false, pickCmd(rapid.IntRange(0, 3).Draw(t, "cmd")), genScript())
+				h.command(false, pickCmd(rapid.IntRange(0, 3).Draw(t, "cmd2")), genScript())
+				// what is still queued would shift every later exchange by one; the
+				// history continues from a quiet socket
+				h.w.Net.Drain()
+				strays++
+			},
 			"": func(t *rapid.T) {
 				if err := invariant(h.w.BMC, h.bs, h.bs2); err != nil {
 					t.Fatalf("history %v: %v", h.desc, err)
@@ -251,6 +277,12 @@ func TestStateMachine(t *testing.T) {
 		})
 		if h.sess2 != nil {
 			ev.Label("two-sessions-interleaved")
+		}
+		if strays > 0 {
+			ev.Label("stray-in-session-reply-during-sessionless-command")
+		}
+		if numbered {
+			ev.Label("bmc-numbers-sessionless-packets")
 		}
 		ev.Eval()
 		if h.retx > 0 {
@@ -263,7 +295,7 @@ func TestStateMachine(t *testing.T) {
 }
 
 func TestCoverage(t *testing.T) {
-	ev.RequireLabels(t, 1, "enumeration-complete", "history-with-retransmission", "two-sessions-interleaved")
+	ev.RequireLabels(t, 1, "enumeration-complete", "history-with-retransmission", "two-sessions-interleaved", "stray-in-session-reply-during-sessionless-command", "bmc-numbers-sessionless-packets")
 }
 
 func min(a, b int) int {
